@@ -425,6 +425,11 @@ func runC11(c *core.Ctx) {
 		case wp != nil && gp != nil:
 			c.Inc("both_panic")
 			continue
+		case wp != nil && gp == nil && gerr != nil && strings.Contains(gerr.Error(), "evaluation failed"):
+			// the shared engine panics on this (expression, document) in the reference binding; idr reports the same engine
+			// failure as an error since the fix for F7 (DESIGN.md section 6): both fail, nothing to compare
+			c.Inc("both_engine_failure")
+			continue
 		case wp != nil || gp != nil:
 			d := detail()
 			if gp != nil {
